@@ -24,6 +24,12 @@ def draw_records_world(rng, n_windows):
         envs.append({"env": rng.choice(ENVELOPES), "comp": rng.choice(["all", "ns", "ew", "vt"]),
                      "scale": rng.choice([1.0, 1.0, 1.0, 0.25, 8.0, 1e-6, 1e5, 1e-9, 1e-12]),      # counts ... m/s
                      "pos": rng.random(), "gain": rng.choice([3.0, 6.0, 15.0, 40.0])})
+    si = rng.random() < 0.15
+    if si:
+        # a record in SI units (m/s: 1e-9 ... 1e-7) cut into windows that all carry the record's meta
+        unit = rng.choice([1e-9, 1e-10, 1e-13])
+        for e in envs:
+            e["scale"] = unit * rng.choice([1.0, 2.0, 5.0])
     if rng.random() < 0.25:
         # windows of one list need not share the time step or the length (sensors of different kinds, a shorter last window)
         for e in envs:
@@ -31,7 +37,7 @@ def draw_records_world(rng, n_windows):
                 e["dt"] = rng.choice([0.01, 0.02, 0.005, 0.004])
             if rng.random() < 0.3:
                 e["ns"] = rng.choice([ns - 1, ns // 2 + 50, ns + 200])
-    return {"k": rng.randrange(1 << 30), "ns": ns, "dt": dt, "envs": envs, "spike_p": 0.0,
+    return {"k": rng.randrange(1 << 30), "ns": ns, "dt": dt, "envs": envs, "spike_p": 0.0, "same_meta": si or rng.random() < 0.3,
             "deg": rng.choice([0.0, 0.0, 30.0]), "int_samples": rng.random() < 0.15}
 
 
@@ -64,7 +70,7 @@ def build_records(H, r):
             comps[c] = x
         recs.append(H.SeismicRecording3C(H.TimeSeries(comps["ns"], dt_j), H.TimeSeries(comps["ew"], dt_j),
                                          H.TimeSeries(comps["vt"], dt_j), degrees_from_north=float(r["deg"]),
-                                         meta={"window": j}))
+                                         meta={"file name(s)": "rec.mseed"} if r.get("same_meta") else {"window": j}))
     return recs
 
 
